@@ -504,7 +504,44 @@ func (ru *srun) traceLine() string {
 	fr, _, rest := memcluster.SplitFrames(ru.g.raw, ru.conf.proto)
 	total := len(ru.g.raw)
 	ru.g.mu.Unlock()
-	return fmt.Sprintf("trace2 bytes=%d frames=%d rest=%d %s", total, len(fr), len(rest), t)
+	// the commands that produced the history ride along (ignored by the monitor) so that the line can be replayed
+	var cmds []string
+	for _, e := range ru.events {
+		if e[0] != '+' {
+			cmds = append(cmds, e)
+		}
+	}
+	return fmt.Sprintf("trace2 bytes=%d frames=%d rest=%d %s | %s | %s", total, len(fr), len(rest), t, ru.conf.header(), strings.Join(cmds, " "))
+}
+
+// replayTrace re-executes the commands of a trace2 line on the real code: "accept" when the real code produces
+// exactly the recorded history again (the Lean monitor then judges it), otherwise the history it produced.
+func replayTrace(line string) string {
+	parts := strings.SplitN(line, " | ", 3)
+	if len(parts) != 3 {
+		return "accept"
+	}
+	conf, ok := parseHeader(strings.Fields(parts[1]))
+	if !ok {
+		return "bad-op"
+	}
+	ru, fatal := newRun(conf)
+	if ru == nil {
+		return fatal
+	}
+	defer ru.finish()
+	for _, tok := range strings.Fields(parts[2]) {
+		if !ru.exec(tok) {
+			return fmt.Sprintf("deviate: command %s not executable after: %s", tok, strings.Join(ru.events, " "))
+		}
+		if ru.fatal != "" {
+			return ru.fatal
+		}
+	}
+	if got := ru.traceLine(); got != line {
+		return "deviate: " + got
+	}
+	return "accept"
 }
 
 // ---- replay of a sched line on the real code
@@ -600,7 +637,8 @@ func runSched(r *vh.Rng, conf sconf) (string, string, string, string) {
 	followed := false
 	cutDone := false
 	maxHeld := 0
-	for step := 0; step < 200 && ru.fatal == ""; step++ {
+	tickRefused := false
+	for step := 0; step < 300 && ru.fatal == ""; step++ {
 		type cand struct {
 			tok string
 			wt  int
@@ -646,10 +684,12 @@ func runSched(r *vh.Rng, conf sconf) (string, string, string, string) {
 				cs = append(cs, cand{fmt.Sprintf("e%d:%s", id, p.cutKind), wt})
 			}
 		}
-		if ru.tick != nil && len(held) == 0 {
+		if ru.tick != nil && !tickRefused {
+			// enqueued requests whose frame has not entered the transport: the timer may fire. While a flush is in
+			// progress the flusher is not at its select and the tick is refused (no effect, tried once per state).
 			nq := 0
 			for _, q := range ru.order {
-				if q.state == "R" {
+				if q.state == "R" && !q.entered {
 					nq++
 				}
 			}
@@ -714,7 +754,15 @@ func runSched(r *vh.Rng, conf sconf) (string, string, string, string) {
 			}
 			k -= c.wt
 		}
-		if !ru.exec(pick.tok) {
+		if pick.tok == "t" && !ru.tick() {
+			tickRefused = true
+			continue
+		}
+		tickRefused = false
+		if pick.tok == "t" {
+			ru.events = append(ru.events, "t")
+			ru.settle()
+		} else if !ru.exec(pick.tok) {
 			ru.fatal = "fatal generated command not executable: " + pick.tok + " after " + strings.Join(ru.events, " ")
 			break
 		}
